@@ -364,6 +364,174 @@ def replay_select(data):
     return False, "?"
 
 
+# ---- az-detect: one bottom-up step of TheoryOracle with SYMBOLIC child theories ----------------------------------------------
+def type_flags(ty):
+    """flags a term of this sort must already carry (independent of pySMT's _theory_from_type)"""
+    out = set()
+    if ty.is_int_type():
+        out.add("integer_arithmetic")
+    elif ty.is_real_type():
+        out.add("real_arithmetic")
+    elif ty.is_bv_type():
+        out.add("bit_vectors")
+    elif ty.is_string_type():
+        out.add("strings")
+    elif ty.is_array_type():
+        out.add("arrays")
+        out |= type_flags(ty.index_type) | type_flags(ty.elem_type)
+    elif ty.is_function_type():
+        out.add("uninterpreted")
+    elif ty.is_custom_type():
+        out.add("custom_type")
+    return out
+
+
+def detect_cases(env):
+    """(name, node, own feature requirements) - node built over fresh symbols of the right sorts"""
+    from pysmt import typing as T
+    m = env.formula_manager
+    tm = env.type_manager
+    a, b = m.Symbol("a", T.BOOL), m.Symbol("b", T.BOOL)
+    i, j = m.Symbol("i", T.INT), m.Symbol("j", T.INT)
+    r, s = m.Symbol("r", T.REAL), m.Symbol("s", T.REAL)
+    u, v = m.Symbol("u", T.STRING), m.Symbol("v", T.STRING)
+    x, y = m.Symbol("x", tm.BVType(4)), m.Symbol("y", tm.BVType(4))
+    arr = m.Symbol("arr", tm.ArrayType(T.INT, tm.BVType(4)))
+    U = tm.Type("U", 0)
+    fu = m.Symbol("fu", tm.FunctionType(U, [T.INT]))
+    fb = m.Symbol("fb", tm.FunctionType(T.BOOL, [T.REAL, T.REAL]))
+    nd = lambda t: ["int_nondiff"] if t == "I" else ["real_nondiff"]
+    return [
+        ("and", m.And(a, b), []), ("not", m.Not(a), []), ("iff", m.Iff(a, b), []), ("ite", m.Ite(a, i, j), []),
+        ("lt-int", m.LT(i, j), []), ("le-real", m.LE(r, s), []), ("equals-bv", m.Equals(x, y), []), ("minus", m.Minus(i, j), []),
+        ("plus-int", m.Plus(i, j), nd("I")), ("plus-real", m.Plus(r, s, r), nd("R")),
+        ("times-const", m.Times(i, m.Int(2)), nd("I")), ("times-nonlinear", m.Times(i, j), nd("I") + ["nonlinear"]),
+        ("times3-nonlinear", m.Times(m.Int(2), i, j), nd("I") + ["nonlinear"]), ("times-real", m.Times(r, s), nd("R") + ["nonlinear"]),
+        ("div-const", m.Div(i, m.Int(2)), nd("I")), ("div-var", m.Div(i, j), nd("I") + ["nonlinear"]),
+        ("div-const-by-var", m.Div(m.Int(1), j), nd("I") + ["nonlinear"]), ("div-real", m.Div(r, s), nd("R") + ["nonlinear"]),
+        ("pow", m.Pow(r, m.Real(2)), ["nonlinear"]), ("toreal", m.ToReal(i), ["integer_arithmetic", "real_arithmetic"]),
+        ("bvadd", m.BVAdd(x, y), []), ("bvult", m.BVULT(x, y), []), ("bvextract", m.BVExtract(x, 1, 2), []),
+        ("bv2nat", m.BVToNatural(x), ["integer_arithmetic"]),
+        ("strlen", m.StrLength(u), ["integer_arithmetic", "strings"]), ("strindexof", m.StrIndexOf(u, v, i), ["integer_arithmetic", "strings"]),
+        ("strtoint", m.StrToInt(u), ["integer_arithmetic", "strings"]), ("inttostr", m.IntToStr(i), ["strings"]),
+        ("strconcat", m.StrConcat(u, v), ["strings"]), ("strcontains", m.StrContains(u, v), ["strings"]),
+        ("strcharat", m.StrCharAt(u, i), ["strings"]), ("strsubstr", m.StrSubstr(u, i, j), ["strings"]),
+        ("select", m.Select(arr, i), []), ("store", m.Store(arr, i, x), []),
+        ("arrayvalue", m.Array(T.INT, x, {m.Int(1): y}), ["arrays", "arrays_const", "integer_arithmetic"]),
+        ("arrayvalue-bvidx", m.Array(tm.BVType(4), i), ["arrays", "arrays_const", "bit_vectors"]),
+        ("function-custom", m.Function(fu, [i]), ["uninterpreted", "custom_type"]),
+        ("function-bool", m.Function(fb, [r, s]), ["uninterpreted"]),
+        ("forall-bv", m.ForAll([x], a), ["bit_vectors"]), ("exists-int-real", m.Exists([i, r], a), ["integer_arithmetic", "real_arithmetic"]),
+    ]
+
+
+MUST_BE_CONSTANT = {"pow": (1,)}      # FormulaManager.Pow rejects a non-constant exponent
+
+
+def check_detect_step(run):
+    import pysmt.oracles as O
+    from pysmt.environment import pop_env
+    lg = L()
+    fam = "az-detect"
+    env = tv.fresh_env()
+    try:
+        oracle = env.theoryo
+        for name, node, own in detect_cases(env):
+            I = patch_len_compare(Interp(O, classes=[lg.Theory, lg.Logic]))
+            kids = [sym_theory("c%d" % k) for k in range(len(node.args()))]
+            prem = []
+            for k, (th, arg) in enumerate(zip(kids, node.args())):
+                prem.append(inv(th))
+                for fl in type_flags(arg.get_type()):
+                    prem.append(zbool(th.fields[fl]))
+                if k in MUST_BE_CONSTANT.get(name, ()):
+                    # the constructor only accepts a constant node here: its theory is that of a constant of the sort
+                    tf = type_flags(arg.get_type())
+                    for fl in FLAGS:
+                        want = (fl in tf) or fl == "linear" or (fl == "integer_difference" and "integer_arithmetic" in tf) \
+                            or (fl == "real_difference" and "real_arithmetic" in tf)
+                        prem.append(zbool(th.fields[fl]) == want)
+            fn = oracle.functions[node.node_type()]
+            try:
+                res = I.call_function(fn.__func__, [oracle, node, kids], {})
+            except Unsupported as e:
+                run.inconc(fam, name, "unsupported construct in TheoryOracle: %s" % e)
+                continue
+            if not isinstance(res, SymObj):
+                run.inconc(fam, name, "result is not a theory object: %r" % (res,))
+                continue
+            claims = [covers(res, th) for th in kids] + [inv(res)]
+            R = res.fields
+            for o in own:
+                if o == "nonlinear":
+                    claims.append(z3.Not(zbool(R["linear"])))
+                elif o == "int_nondiff":
+                    claims.append(z3.Not(zbool(R["integer_difference"])))
+                elif o == "real_nondiff":
+                    claims.append(z3.Not(zbool(R["real_difference"])))
+                else:
+                    claims.append(zbool(R[o]))
+            # the step must not mutate the (memoised) child theories it was given
+            for k, th in enumerate(kids):
+                orig = sym_theory("c%d" % k)
+                claims.append(same(th, orig))
+            for cond, txt in I.assert_failures:
+                claims.append(z3.Not(zbool(cond)))
+            ok, model = valid(run, fam, name, z3.And(*claims), prem)
+            if ok is False:
+                data = {"kind": "detect-step", "case": name, "children": {"c%d" % k: model_theory(model, "c%d" % k) for k in range(len(kids))}}
+                run.violation(fam, name, data, "detect-step/" + name,
+                              "TheoryOracle step for %s with child theories %s does not cover the children / lacks %s / mutates its "
+                              "arguments" % (node.serialize(), data["children"], own), queries=1)
+        run.sample({"family": fam, "obligation": "times-nonlinear", "query": "for all child theories (2^24): result covers both children, "
+                    "is non-linear and non-difference, children not mutated", "verdict": "unsat"})
+    finally:
+        pop_env()
+
+
+def replay_detect_step(data):
+    """run the real callback on concrete child theories"""
+    lg = L()
+    env = tv.fresh_env()
+    cases = {n: (node, own) for n, node, own in detect_cases(env)}
+    node, own = cases[data["case"]]
+
+    def mk(d):
+        t = lg.Theory()
+        for k, v in d.items():
+            setattr(t, k, v)
+        return t
+    kids = [mk(data["children"]["c%d" % k]) for k in range(len(node.args()))]
+    before = [str(k) for k in kids]
+    try:
+        res = env.theoryo.functions[node.node_type()](node, args=kids)
+    except AssertionError as e:
+        return True, "assertion %r in the oracle step" % (e,)
+    bad = []
+    for kd in kids:
+        for f in ("arrays", "arrays_const", "bit_vectors", "integer_arithmetic", "real_arithmetic", "uninterpreted", "custom_type", "strings"):
+            if getattr(kd, f) and not getattr(res, f):
+                bad.append("child flag %s lost" % f)
+        if not kd.linear and res.linear:
+            bad.append("non-linearity lost")
+        if kd.integer_arithmetic and not kd.integer_difference and res.integer_difference:
+            bad.append("int non-difference lost")
+        if kd.real_arithmetic and not kd.real_difference and res.real_difference:
+            bad.append("real non-difference lost")
+    for o in own:
+        if o == "nonlinear" and res.linear:
+            bad.append("result is linear")
+        elif o == "int_nondiff" and res.integer_difference:
+            bad.append("result is integer difference logic")
+        elif o == "real_nondiff" and res.real_difference:
+            bad.append("result is real difference logic")
+        elif o not in ("nonlinear", "int_nondiff", "real_nondiff") and not getattr(res, o):
+            bad.append("result lacks %s" % o)
+    if [str(k) for k in kids] != before:
+        bad.append("child theory objects were mutated")
+    return bool(bad), "; ".join(bad) or "ok"
+
+
 # ---- tv-detect: get_logic end to end vs independent feature extraction ---------------------------------------------------
 def features(f):
     """independent feature extraction -> dict of required flags"""
@@ -418,6 +586,10 @@ def features(f):
         elif nt == op.TOREAL:
             req["integer_arithmetic"] = True
             req["real_arithmetic"] = True
+        if nt not in (op.SYMBOL, op.FORALL, op.EXISTS, op.POW):
+            # (POW excluded: pySMT types every power as Real, also Int ^ Int, which solvers treat as integer arithmetic)
+            # the sort of every term that occurs must be enabled (a string produced from an integer, a bit-vector ITE, ...)
+            ty(t.get_type())
         if nt in (op.PLUS, op.TIMES, op.DIV, op.POW):
             isint = t.arg(0).get_type().is_int_type()
             # sums, products and quotients are not difference-logic atoms
@@ -459,7 +631,14 @@ def gen_detect(env, tier):
               m.Equals(m.Times(m.Int(2), x, y), z), m.Equals(m.Times(x, m.Int(3), y), z), m.LT(m.Times(m.Int(-1), x, x), z),
               m.Equals(m.Times(x, m.Int(2), y, z), z), m.LT(m.Times(m.Real(2), r, s), r), m.LT(m.Times(x, y, z), z),
               m.Equals(m.Times(m.Int(5), x, m.Int(5)), z), m.LE(m.Div(x, m.Int(2)), y), m.LE(m.Div(x, y), z),
-              m.Equals(m.IntToStr(x), g.sym[g.S][0]), m.LT(m.StrToInt(g.sym[g.S][0]), x)]
+              m.Equals(m.IntToStr(x), g.sym[g.S][0]), m.LT(m.StrToInt(g.sym[g.S][0]), x),
+              # a string that exists only as the image of an integer; arithmetic hidden below an Int-valued string/BV operator
+              m.Equals(m.StrLength(m.IntToStr(x)), y), m.StrContains(m.IntToStr(x), m.IntToStr(y)),
+              m.Equals(m.StrLength(m.IntToStr(m.Plus(x, y, z))), y),
+              m.Equals(m.StrLength(m.Ite(m.LT(m.Plus(x, y, z), x), g.sym[g.S][0], g.sym[g.S][1])), y),
+              m.Equals(m.StrIndexOf(g.sym[g.S][0], g.sym[g.S][1], m.Times(x, y)), y),
+              m.Equals(m.BVToNatural(m.Ite(m.LT(m.Plus(x, y, z), x), q, q)), y),
+              m.Equals(m.BVToNatural(m.Ite(m.LT(m.Times(x, y), x), q, m.BVNot(q))), y)]
     return forms
 
 
@@ -506,6 +685,8 @@ def replay(data):
         return replay_order(data)
     if k in ("closer", "generic", "named"):
         return replay_select(data)
+    if k == "detect-step":
+        return replay_detect_step(data)
     if k == "detect":
         env = tv.fresh_env()
         f = bp.from_bp(data["formula"], env)
@@ -533,6 +714,8 @@ def run(run, only=None):
             check_order(run)
         if not only or "select" in only:
             check_select(run, run.tier)
+        if not only or "detect-step" in only:
+            check_detect_step(run)
     except Unsupported as e:
         run.inconc("az", "interpreter", "unsupported construct in pysmt/logics.py: %s" % e)
     if not only or "detect" in only:
